@@ -4,7 +4,7 @@
    Pos/ErrRange.v (convert_pest_error, compute_error_range, scan_token_end, scan_token_start),
    Pos/Tree.v (pest's Start/End token queue and its reading as a pair tree). *)
 From Cddl Require Import Base.Bytes Base.Utf8 Pos.Span Pos.ErrRange Pos.Tree
-  Pos.SpanProofs Pos.ErrRangeProofs Pos.TreeProofs.
+  Pos.SpanProofs Pos.ErrRangeProofs Pos.BoundaryProofs Pos.FixedProofs Pos.TreeProofs.
 Open Scope N_scope.
 
 (* ---------- AST spans ---------- *)
@@ -53,7 +53,18 @@ Proof. exact err_linecol_of_index. Qed.
      forall bs index, utf8_valid bs = true -> index <= lenN bs -> char_boundary bs index = true ->
        char_boundary bs (fst (compute_error_range index bs)) = true
        /\ char_boundary bs (snd (compute_error_range index bs)) = true.                          *)
+(* partial, strongest form: the full statement holds outside exactly the two classified defect classes
+   (kf_range_end_in_char: the token scanned forward is a single non-ASCII lead byte;
+    kf_range_start_in_char: the backward scan stopped on the last byte of a multi-byte character) *)
 Theorem C15_err_range_on_char_boundary_partial : forall bs index,
+  utf8_valid bs = true -> index <= lenN bs -> char_boundary bs index = true ->
+  kf_range_end_in_char bs index = false -> kf_range_start_in_char bs index = false ->
+  char_boundary bs (fst (compute_error_range index bs)) = true
+  /\ char_boundary bs (snd (compute_error_range index bs)) = true.
+Proof. exact err_range_on_char_boundary_unless_classified. Qed.
+
+(* in particular for ASCII-only documents *)
+Theorem C15_err_range_on_char_boundary_ascii : forall bs index,
   all_ascii bs = true -> index <= lenN bs ->
   char_boundary bs (fst (compute_error_range index bs)) = true
   /\ char_boundary bs (snd (compute_error_range index bs)) = true.
@@ -70,6 +81,27 @@ Theorem C15_err_range_on_char_boundary_refuted :
      /\ char_boundary bs (fst (compute_error_range index bs)) = false
      /\ char_boundary bs (p_index (convert_pest_error bs index)) = false).
 Proof. exact err_range_on_char_boundary_refuted. Qed.
+
+(* ---------- the proposed repair (design.d/C15-fix-error-range-char-boundary.patch) ---------- *)
+(* of the repaired scan_token_end / scan_token_start the FULL statement holds *)
+Theorem C15_fixed_range_on_char_boundary : forall bs index,
+  utf8_valid bs = true -> index <= lenN bs -> char_boundary bs index = true ->
+  char_boundary bs (fst (compute_error_range_fixed index bs)) = true
+  /\ char_boundary bs (snd (compute_error_range_fixed index bs)) = true.
+Proof. exact fixed_range_on_char_boundary. Qed.
+
+Theorem C15_fixed_range_in_bounds : forall bs index, index <= lenN bs ->
+  fst (compute_error_range_fixed index bs) <= snd (compute_error_range_fixed index bs)
+  /\ snd (compute_error_range_fixed index bs) <= lenN bs
+  /\ fst (compute_error_range_fixed index bs) <= index.
+Proof. exact fixed_range_in_bounds. Qed.
+
+(* and the repair changes the reported range only in the two classified classes *)
+Theorem C15_fixed_differs_only_on_classified : forall bs index,
+  utf8_valid bs = true -> index <= lenN bs -> char_boundary bs index = true ->
+  kf_range_end_in_char bs index = false -> kf_range_start_in_char bs index = false ->
+  compute_error_range_fixed index bs = compute_error_range index bs.
+Proof. exact fixed_differs_only_on_classified. Qed.
 
 (* ---------- pair trees ---------- *)
 (* a token queue whose positions never decrease and stay inside the text reads as a forest with nested spans,
@@ -109,6 +141,17 @@ Proof. vm_compute. auto. Qed.
 Example C15_example_error :
   convert_pest_error [97; 32; 61; 32; 91; 13; 10; 32; 32; 49; 44; 13; 10] 13 = mkPos 2 4 (10, 11) 10.
 Proof. vm_compute. reflexivity. Qed.
+(* "a = x ; é\r\n /" with pest failing at the end: hypotheses of the partial boundary theorem hold, range (13,14) *)
+Example C15_example_boundary :
+  let bs := [97; 32; 61; 32; 120; 32; 59; 32; 195; 169; 13; 10; 32; 47] in
+  utf8_valid bs = true /\ char_boundary bs 14 = true
+  /\ kf_range_end_in_char bs 14 = false /\ kf_range_start_in_char bs 14 = false
+  /\ compute_error_range 14 bs = (13, 14).
+Proof. vm_compute. auto. Qed.
+Example C15_example_fixed :
+  compute_error_range_fixed 4 [97; 32; 61; 32; 195; 169] = (4, 6)
+  /\ convert_pest_error_fixed [97; 32; 61; 32; 59; 32; 195; 169; 10] 9 = mkPos 1 7 (6, 8) 6.
+Proof. vm_compute. auto. Qed.
 Example C15_example_tree :
   events_wfb 9 [EStart 0; EStart 0; EEnd 1; EStart 4; EStart 4; EEnd 7; EEnd 9; EEnd 9] = true
   /\ events_wfb 9 [EStart 0; EStart 4; EEnd 9; EStart 8; EEnd 9; EEnd 9] = false.
